@@ -243,7 +243,8 @@ def _alias_classification(repo: Repo, rep: Report) -> None:
     hmod = repo.module(HANDLER)
     cls = hmod.classes["EndpointResponseHandlerGenerator"]
     n_pred = 0
-    for fn in cls.methods.values():
+    mod_level = [f for q, f in hmod.functions.items() if "." not in q]  # the predicate may be a module-level helper shared by the methods
+    for fn in list(cls.methods.values()) + mod_level:
         FL = Locals(fn.node)
         for n in own_nodes(fn.node):
             if not isinstance(n, ast.BoolOp) or not isinstance(n.op, ast.And) or isinstance(parent(n), ast.BoolOp):
@@ -261,7 +262,10 @@ def _alias_classification(repo: Repo, rep: Report) -> None:
                 neg |= _neg_attrs(p_)
             if "properties" not in neg:
                 continue
-            n_pred += 1
+            # a shared predicate stands for each of its call sites
+            uses = sum(1 for f2 in cls.methods.values() for c in calls_in(f2.node)
+                       if (isinstance(c.func, ast.Name) and c.func.id == fn.name) or (isinstance(c.func, ast.Attribute) and c.func.attr == fn.name)) if fn in mod_level else 0
+            n_pred += max(1, uses)
             sub = f"{hmod.relpath}:{fn.qualname} type-alias test #{n_pred}"
             missing = sorted(want - neg)
             if not missing:
@@ -415,14 +419,20 @@ def _json_guard(fn: Function, rep: Report) -> None:
                         out.append(n)
         return out
 
-    tests = [n for n in cfg.nodes if n.kind == "test" and ("'str'" in test_text(n.ast) or "'bytes'" in test_text(n.ast))]
+    def test_text_of(n) -> str:
+        if n.kind == "case":  # `match python_type: case "bytes": ...` - the case pattern is the test
+            return " ".join(repr(x.value) for x in ast.walk(n.ast.pattern) if isinstance(x, ast.Constant) and isinstance(x.value, str))
+        return test_text(n.ast)
+
+    _tt = test_text
+    tests = [n for n in cfg.nodes if n.kind in ("test", "case") and ("'str'" in test_text_of(n) or "'bytes'" in test_text_of(n))]
     for nd, c in emits:
         sub = f"{fn.module.relpath}:{fn.qualname} `{norm(c.args[0])[:50]}`"
         seen_kinds: Set[str] = set()
         kinds_dom: Set[str] = set()
         for kind, snippet in (("str", "response.text"), ("bytes", "response.content")):
             for en in emit_nodes(snippet):
-                gts = [t for t in tests if t.id in dom[en.id] and f"'{kind}'" in test_text(t.ast)]
+                gts = [t for t in tests if t.id in dom[en.id] and f"'{kind}'" in test_text_of(t)]
                 if gts:
                     seen_kinds.add(kind)
                     # the same test is evaluated on every path to the JSON emit
